@@ -325,6 +325,7 @@ func (e *endPoint) dispatch(msg *Message) error {
 	e.handlersMutex.Lock()
 	defer e.handlersMutex.Unlock()
 	vhook.Emit("endpoint", e, "dispatch", "id", msg.Header.ID, "type", msg.Header.Type, "service", msg.Header.Service, "object", msg.Header.Object, "action", msg.Header.Action, "size", msg.Header.Size)
+	defer vhook.Emit("endpoint", e, "dispatched")
 	if len(e.handlers) == 0 {
 		return ErrNoHandler
 	}
